@@ -310,7 +310,8 @@ def conjunction_of_verdicts(f, cfg, rets, vcalls):
         for c in vcalls:
             vs = verdict_names(c)
             if not vs:
-                return None, "a verdict is not bound to a name"
+                # the verdict tested in place: `if not _validate(..): flag = False` -- the call text stands for it
+                vs = {norm(c)}
             vnames |= vs
         init = [s for s in stores if isinstance(s, ast.Assign) and isinstance(s.value, ast.Constant) and s.value.value is True]
         if len(init) != 1 or any(id(init[0]) in {id(x) for l in walk_local(f.node) if isinstance(l, (ast.For, ast.While)) for x in ast.walk(l)} for _ in [0]):
